@@ -1562,10 +1562,17 @@ class AlterConstraint(
             # computing the classname.
             name = sn.shortname_from_fullname(self.classname)
             assert isinstance(name, sn.QualName), "expected qualified name"
+            args = self.scls.get_args(schema) or ()
+            except_expr = self.get_attribute_value('except_expr')
+            if except_expr is None:
+                except_expr = self.scls.get_except_expr(schema)
             ast = qlast.CreateConcreteConstraint(
                 name=qlast.ObjectRef(name=name.name, module=name.module),
                 subjectexpr=subjectexpr.parse(),
-                args=[],
+                except_expr=(
+                    except_expr.parse() if except_expr is not None else None
+                ),
+                args=[arg.parse() for arg in args],
             )
             quals = sn.quals_from_fullname(self.classname)
             new_name = self._classname_from_ast_and_referrer(
